@@ -120,10 +120,18 @@ func checkC18(p *Prog, rp *Report) {
 		fmt.Fprintf(os.Stderr, "parser model %v\n", time.Since(tA))
 	}
 	parserOK := pm != nil && len(pm.undec) == 0 && len(pm.panics) == 0 && len(pm.nonterm) == 0 && pm.forward
+	parserHow := "dependency parser exploration"
+	if pm == nil || len(pm.undec) > 0 || !pm.forward {
+		// the parser left the transition-system model: bounded exploration on exact inputs
+		if b := parserBounded(p); b.undecided == "" && len(b.total) == 0 {
+			parserOK = true
+			parserHow = "bounded dependency parser exploration (exact inputs: grammar words and every short string; the parser left the transition-system model)"
+		}
+	}
 	if parse := p.Func("dependency", "Parse"); parse != nil {
 		for _, f := range reachableRepoFuncs(parse) {
 			if shortPkg(f) == "dependency" {
-				cursorFns[f] = "dependency parser exploration"
+				cursorFns[f] = parserHow
 			}
 		}
 	}
@@ -318,6 +326,29 @@ func classifyLoop(p *Prog, fn *ssa.Function, li loopInfo) (string, bool) {
 			return "counted loop: " + tm.term(ifi.Cond), true
 		}
 	}
+	// (i') range loop over a string or a map: the exit test is the ok result of the iterator's Next
+	for b := range li.blocks {
+		ifi, ok := b.Instrs[len(b.Instrs)-1].(*ssa.If)
+		if !ok || (li.blocks[b.Succs[0]] && li.blocks[b.Succs[1]]) {
+			continue
+		}
+		if ex, ok := ifi.Cond.(*ssa.Extract); ok && ex.Index == 0 {
+			if nx, ok := ex.Tuple.(*ssa.Next); ok && li.blocks[nx.Block()] {
+				if rg, ok := nx.Iter.(*ssa.Range); ok && !li.blocks[rg.Block()] {
+					// every cycle must pass the Next: the header (or the block of Next) dominates the back edges
+					okDom := true
+					for _, pred := range li.header.Preds {
+						if li.blocks[pred] && !nx.Block().Dominates(pred) {
+							okDom = false
+						}
+					}
+					if okDom {
+						return "range loop over a string or map: one element per iteration", true
+					}
+				}
+			}
+		}
+	}
 	// (ii) reader loop: every cycle passes a read call whose error can leave the loop
 	through := map[*ssa.BasicBlock]bool{}
 	for b := range li.blocks {
@@ -375,7 +406,90 @@ func classifyLoop(p *Prog, fn *ssa.Function, li loopInfo) (string, bool) {
 			return "reader loop: every iteration reads from the input and leaves on its error / end of input", true
 		}
 	}
+	// (iv) descent loop: a loop-carried value is replaced, on every way round the loop, by something
+	// strictly smaller of a well-founded kind: v = v.Elem() (reflection: type nesting is finite) or
+	// s = s[k:] with a constant k >= 1 (a string or slice gets shorter).
+	for _, ins := range li.header.Instrs {
+		ph, ok := ins.(*ssa.Phi)
+		if !ok {
+			break
+		}
+		all, any := true, false
+		how := ""
+		for i, pred := range li.header.Preds {
+			if !li.blocks[pred] {
+				continue
+			}
+			any = true
+			switch e := ph.Edges[i].(type) {
+			case *ssa.Call:
+				if n := calleeName(e.Common()); (n == "(reflect.Value).Elem" || n == "(reflect.Value).Field") && len(e.Call.Args) > 0 && e.Call.Args[0] == ssa.Value(ph) {
+					how = "descent loop: the reflected value is replaced by its Elem() on every iteration (type nesting is finite)"
+					continue
+				}
+				all = false
+			case *ssa.Extract:
+				// el, rest, more = strings.Cut(rest, sep): rest gets shorter by at least len(sep) while more holds,
+				// provided the loop is left when more is false
+				if c, isCall := e.Tuple.(*ssa.Call); isCall && e.Index == 1 && calleeName(c.Common()) == "strings.Cut" && c.Call.Args[0] == ssa.Value(ph) {
+					if sep, isC := constString(c.Call.Args[1]); isC && sep != "" && exitsOnCutFlag(li, c) {
+						how = "descent loop: the remainder returned by strings.Cut is shorter on every iteration and the loop ends when nothing was cut"
+						continue
+					}
+				}
+				all = false
+			case *ssa.Slice:
+				if k, isC := int64(0), false; e.X == ssa.Value(ph) && e.High == nil && e.Low != nil {
+					if k, isC = constInt(e.Low); isC && k >= 1 {
+						how = "descent loop: the string/slice loses at least one element on every iteration"
+						continue
+					}
+				}
+				all = false
+			default:
+				all = false
+			}
+		}
+		if any && all && how != "" {
+			return how, true
+		}
+	}
 	return "", false
+}
+
+// exitsOnCutFlag: some exit test of the loop is the `found` result of the given strings.Cut call (possibly
+// carried to the header by a phi): the loop cannot continue after a Cut that found nothing.
+func exitsOnCutFlag(li loopInfo, cut *ssa.Call) bool {
+	isFlag := func(v ssa.Value) bool {
+		if ex, ok := v.(*ssa.Extract); ok && ex.Tuple == ssa.Value(cut) && ex.Index == 2 {
+			return true
+		}
+		if ph, ok := v.(*ssa.Phi); ok {
+			for i, pred := range ph.Block().Preds {
+				if !li.blocks[pred] {
+					continue
+				}
+				if ex, ok := ph.Edges[i].(*ssa.Extract); !ok || ex.Tuple != ssa.Value(cut) || ex.Index != 2 {
+					return false
+				}
+			}
+			return true
+		}
+		return false
+	}
+	for b := range li.blocks {
+		ifi, ok := b.Instrs[len(b.Instrs)-1].(*ssa.If)
+		if !ok {
+			continue
+		}
+		if li.blocks[b.Succs[0]] && li.blocks[b.Succs[1]] {
+			continue
+		}
+		if isFlag(ifi.Cond) && !li.blocks[b.Succs[1]] {
+			return true
+		}
+	}
+	return false
 }
 
 func c18Term(p *Prog, rp *Report, fns []*ssa.Function, cursorFns map[*ssa.Function]string, parserOK, cmpOK bool, pm *parserModel, prod *productResult, why string) {
@@ -397,7 +511,9 @@ func c18Term(p *Prog, rp *Report, fns []*ssa.Function, cursorFns map[*ssa.Functi
 				if strings.HasPrefix(how, "version") {
 					good = cmpOK
 				}
-				if good {
+				if good && strings.HasPrefix(how, "bounded") {
+					r.ok(key, pos, "loop of the "+how+": every explored run ends within the step limit")
+				} else if good {
 					r.ok(key, pos, "cursor loop covered by the "+how+": every run between two input symbols is finite and the input is finite")
 				} else {
 					msg := why
@@ -482,6 +598,7 @@ func everyPathUsesEdge(fn *ssa.Function, edges map[[2]*ssa.BasicBlock]bool, targ
 
 func c18Bounds(p *Prog, rp *Report, fns []*ssa.Function, cursorFns map[*ssa.Function]string, parserOK, cmpOK bool) {
 	r := rp.Rule("C18-BOUNDS", "every index and slice expression of the parsers is in range", 40)
+	var pending []pendingSite
 	for _, fn := range fns {
 		tm := newTermer()
 		gs := guardsOf(fn)
@@ -527,7 +644,7 @@ func c18Bounds(p *Prog, rp *Report, fns []*ssa.Function, cursorFns map[*ssa.Func
 					if why, ok := indexInRange(fn, gs, tm, b, base, bt, idx); ok {
 						r.ok(key, pos, why)
 					} else {
-						r.bad(key, pos, fmt.Sprintf("%s[%s] is not proven in range: %s", bt, tm.term(idx), why), nil)
+						pending = append(pending, pendingSite{ins, key, pos, fmt.Sprintf("%s[%s] is not proven in range: %s", bt, tm.term(idx), why)})
 					}
 					continue
 				}
@@ -541,11 +658,38 @@ func c18Bounds(p *Prog, rp *Report, fns []*ssa.Function, cursorFns map[*ssa.Func
 					if hi != nil {
 						h = tm.term(hi)
 					}
-					r.bad(key, pos, fmt.Sprintf("%s[%s:%s] is not proven in range: %s", bt, l, h, why), nil)
+					pending = append(pending, pendingSite{ins, key, pos, fmt.Sprintf("%s[%s:%s] is not proven in range: %s", bt, l, h, why)})
 				}
 			}
 		}
 	}
+	if len(pending) == 0 {
+		return
+	}
+	// Sites that none of the proof idioms covers: bounded evidence from the scenario families of the
+	// checks that interpret these parsers (C03 version strings, C05 dependency fields, C07 reader scripts,
+	// C09/C10 documents, C17 changelog scripts). A site is accepted when those families went through it
+	// and no run panicked there; a panic at the site is the violation; a site never reached stays unproven.
+	for _, id := range []string{"C03", "C05", "C07", "C09", "C10", "C17"} {
+		if fn := registry[id]; fn != nil {
+			fn(p, NewReport(id, "quick"))
+		}
+	}
+	for _, ps := range pending {
+		switch {
+		case execPanics[ps.ins] != "":
+			r.bad(ps.key, ps.pos, ps.msg+"; and the scenario families reach it out of range: "+execPanics[ps.ins], nil)
+		case execCount[ps.ins] > 0:
+			r.ok(ps.key, ps.pos, fmt.Sprintf("(bounded) no proof idiom applies (%s); interpreted %d times by the scenario families of C03/C05/C07/C09/C10/C17 without leaving the range", clip(ps.msg, 120), execCount[ps.ins]))
+		default:
+			r.bad(ps.key, ps.pos, ps.msg+" (and no scenario family reaches it)", nil)
+		}
+	}
+}
+
+type pendingSite struct {
+	ins           ssa.Instruction
+	key, pos, msg string
 }
 
 func lenGuardFor(fn *ssa.Function, gs []guard, blk *ssa.BasicBlock, bt string, k int64) (string, bool) {
